@@ -1,0 +1,36 @@
+//go:build verif
+
+// Package verifhook provides named schedule points for the verification
+// harness. It is only active when built with the "verif" tag; see off.go.
+package verifhook
+
+import "sync/atomic"
+
+// Handler is invoked at every Point reached while installed.
+type Handler func(name string, key interface{})
+
+var handler atomic.Pointer[Handler]
+
+// Enabled reports whether hooks are compiled in.
+const Enabled = true
+
+// Set installs h (nil uninstalls) and returns the previous handler.
+func Set(h Handler) Handler {
+	var old *Handler
+	if h == nil {
+		old = handler.Swap(nil)
+	} else {
+		old = handler.Swap(&h)
+	}
+	if old == nil {
+		return nil
+	}
+	return *old
+}
+
+// Point reports that the calling goroutine reached the named schedule point.
+func Point(name string, key interface{}) {
+	if h := handler.Load(); h != nil {
+		(*h)(name, key)
+	}
+}
